@@ -22,7 +22,7 @@ import (
 type PathSample struct {
 	Prefix   []int             `json:"prefix"`
 	Outcome  string            `json:"outcome"`
-	Model    map[string]string `json:"model,omitempty"`
+	Model    map[string]string `json:"model"`
 	Chooses  []int             `json:"chooses,omitempty"`
 	ChooseK  map[string]int    `json:"choosek,omitempty"`
 	Yields   []string          `json:"yields,omitempty"`
